@@ -19,7 +19,7 @@ use std::{
 };
 
 use c02::{Case, Mode, Mutation, Outcome, Sink, Target, JPEG};
-use c2pa::{Builder, BuilderIntent, Context, DigitalSourceType, Reader};
+use c2pa::{BuilderIntent, Context, DigitalSourceType, Reader};
 use proptest::prelude::*;
 use serde::{Deserialize, Serialize};
 use serde_json::{json, Value};
@@ -28,6 +28,10 @@ use vh::{
     rng::SplitMix64,
     sdk, CaseResult, Fail, Run,
 };
+
+fn selftest() -> bool {
+    std::env::var("VERIF_SELFTEST").map(|v| v == "1").unwrap_or(false)
+}
 
 fn rt(bytes: &[u8], ctx: &Context) -> Result<Result<Vec<u8>, String>, String> {
     // outer Err = panic
@@ -69,7 +73,8 @@ struct Spec {
     /// 0 = no claim thumbnail, otherwise index into SIZES
     thumb: u8,
     ingredients: Vec<ISpec>,
-    /// 0 create, 1 edit (parent = signed source), 2 update manifest, 3 update manifest with a redaction, 4 edit of a chain
+    /// 0 create, 1 edit (parent = signed source), 2 update manifest, 3 update manifest with a redaction, 4 edit of a chain,
+    /// 5 create through the placeholder / sign_embeddable flow (signer from settings, zero-padded store)
     flow: u8,
     compress: bool,
     no_embed: bool,
@@ -138,12 +143,35 @@ fn payload(rng: &mut SplitMix64, size: usize) -> Value {
 struct Built {
     store: Vec<u8>,
     ctx: Arc<Context>,
+    /// placeholder flow only: the signed composed manifest is not as long as the placeholder (C15's subject)
+    size_differs: bool,
+}
+
+/// The store without trailing padding: bytes after the end of the outermost box (as declared by its LBox)
+/// that are all zero. Anything else is left alone.
+fn strip_padding(s: &[u8]) -> (&[u8], usize) {
+    if s.len() >= 8 {
+        let l = u32::from_be_bytes([s[0], s[1], s[2], s[3]]) as usize;
+        if l >= 8 && l < s.len() && s[l..].iter().all(|b| *b == 0) {
+            return (&s[..l], s.len() - l);
+        }
+    }
+    (s, 0)
 }
 
 /// Build the store a spec describes. `Err` = the Builder rejected the definition (generator problem, counted).
 fn build(sp: &Spec) -> Result<Built, String> {
     let p = pool()?;
-    let ctx = Arc::new(sdk::context_with(&c02::settings(sp.compress)));
+    let alg = sdk::ALGS[sp.alg as usize % sdk::ALGS.len()];
+    let mut settings = c02::settings(sp.compress && sp.flow != 5);
+    if sp.flow == 5 {
+        let (cert, key) = sdk::credential(alg);
+        sdk::merge(
+            &mut settings,
+            &json!({"signer": {"local": {"alg": alg, "sign_cert": String::from_utf8_lossy(&cert), "private_key": String::from_utf8_lossy(&key)}}}),
+        );
+    }
+    let ctx = Arc::new(sdk::context_with(&settings));
     let mut rng = SplitMix64::new(sp.seed as u64 ^ 0xC18);
     let v = if sp.claim_v1 && sp.flow < 2 { 1 } else { 2 };
     let mut def = json!({
@@ -163,7 +191,7 @@ fn build(sp: &Spec) -> Result<Built, String> {
         _ => {}
     }
     let intent = match (sp.flow, v) {
-        (0, 2) => Some(BuilderIntent::Create(DigitalSourceType::Empty)),
+        (0 | 5, 2) => Some(BuilderIntent::Create(DigitalSourceType::Empty)),
         (1 | 4, 2) => Some(BuilderIntent::Edit),
         (2 | 3, _) => Some(BuilderIntent::Update),
         _ => None,
@@ -201,7 +229,7 @@ fn build(sp: &Spec) -> Result<Built, String> {
     }
     // source asset and parent
     let src: &[u8] = match sp.flow {
-        0 => &p.plain,
+        0 | 5 => &p.plain,
         1 => {
             if v == 1 {
                 &p.v1
@@ -255,13 +283,27 @@ fn build(sp: &Spec) -> Result<Built, String> {
             }
         }
     }
-    let alg = sdk::ALGS[sp.alg as usize % sdk::ALGS.len()];
+    if sp.flow == 5 {
+        // placeholder -> embed -> hash -> sign_embeddable -> patch; the store is read back from the asset
+        let ph = b.placeholder(JPEG).map_err(|e| format!("placeholder: {e}"))?;
+        let mut asset = src[..2].to_vec();
+        asset.extend_from_slice(&ph);
+        asset.extend_from_slice(&src[2..]);
+        b.set_data_hash_exclusions(vec![c2pa::HashRange::new(2, ph.len() as u64)]).map_err(|e| format!("exclusions: {e}"))?;
+        b.update_hash_from_stream(JPEG, &mut Cursor::new(asset.clone())).map_err(|e| format!("update_hash: {e}"))?;
+        let fin = b.sign_embeddable(JPEG).map_err(|e| format!("sign_embeddable: {e}"))?;
+        let mut out = src[..2].to_vec();
+        out.extend_from_slice(&fin);
+        out.extend_from_slice(&src[2..]);
+        let store = sdk::store_of(JPEG, &out).map_err(|e| format!("store_of: {e}"))?;
+        return Ok(Built { store, ctx, size_differs: fin.len() != ph.len() });
+    }
     let signed = c02::sign(b, alg, src, sp.no_embed)?;
     let store = match signed.sidecar {
         Some(s) => s,
         None => sdk::store_of(JPEG, &signed.asset).map_err(|e| format!("store_of: {e}"))?,
     };
-    Ok(Built { store, ctx })
+    Ok(Built { store, ctx, size_differs: false })
 }
 
 fn first_mismatch(a: &[u8], b: &[u8]) -> usize {
@@ -283,7 +325,14 @@ fn judge_sdk_store(run: &Run, sp: &Spec) -> CaseResult {
             return Ok(());
         }
     };
-    let s = &built.store;
+    let (s, pad) = strip_padding(&built.store);
+    let s = &s.to_vec();
+    if pad > 0 {
+        run.count("a:zero-padding-after-outer-box-stripped");
+    }
+    if built.size_differs {
+        run.count("a:embeddable-size-differs-from-placeholder");
+    }
     run.count("a:built");
     run.count(&format!("a:flow{}", sp.flow));
     run.count(if sp.claim_v1 && sp.flow < 2 { "a:claim-v1" } else { "a:claim-v2" });
@@ -330,6 +379,11 @@ fn judge_sdk_store(run: &Run, sp: &Spec) -> CaseResult {
         Ok(Err(e)) => return Err(Fail::new("C18:sdk-store-does-not-parse", format!("{what_flow}: the parser rejects a Builder-made store ({} bytes): {e}", s.len()))),
         Ok(Ok(r)) => r,
     };
+    let mut r = r;
+    if selftest() && sp.compress && !r.is_empty() {
+        let k = r.len() / 2;
+        r[k] ^= 1; // deliberately corrupted SDK answer
+    }
     if &r != s {
         let at = first_mismatch(&r, s);
         let (cls, path) = match &boxes {
@@ -373,7 +427,7 @@ fn spec_strategy() -> impl Strategy<Value = Spec> {
         proptest::collection::vec(a, 0..5),
         0u8..7,
         proptest::collection::vec(i, 0..4),
-        (0u8..5, any::<bool>(), any::<bool>(), any::<u32>()),
+        (0u8..6, any::<bool>(), any::<bool>(), any::<u32>()),
     )
         .prop_map(|((claim_v1, alg, title, hash_alg), assertions, thumb, ingredients, (flow, compress, no_embed, seed))| Spec {
             claim_v1,
@@ -474,6 +528,7 @@ fn judge_mutant_inner(run: &Sink, targets: &BTreeMap<String, Target>, c: &Case) 
             ));
         }
         Ok(Ok(r2)) => {
+            let r2 = if selftest() && matches!(class, SpanClass::DescriptionBox { field: jw::DescField::Toggles }) { m.clone() } else { r2 };
             if r2 != r1 {
                 let at = first_mismatch(&r1, &r2);
                 return Err(Fail::new(
@@ -535,7 +590,15 @@ fn judge_mutant_inner(run: &Sink, targets: &BTreeMap<String, Target>, c: &Case) 
 fn mutant_cases(run: &Run, targets: &BTreeMap<String, Target>) -> Vec<Case> {
     let mut v = vec![];
     for t in targets.values() {
-        v.extend(c02::cases_for(t, run, !run.quick(), 600));
+        let all = c02::cases_for(t, run, !run.quick(), 600);
+        if run.quick() {
+            // about 1500 per store: every k-th case of the deterministic list (all edit kinds stay represented)
+            let k = all.len().div_ceil(1500).max(1);
+            let off = (run.seed % k as u64) as usize;
+            v.extend(all.into_iter().enumerate().filter(|(i, _)| i % k == off).map(|(_, c)| c));
+        } else {
+            v.extend(all);
+        }
     }
     v
 }
@@ -558,7 +621,9 @@ fn main() {
     match pool() {
         Ok(_) => {
             let n = run.scale(200, 4000);
+            let t0 = std::time::Instant::now();
             run.drive_par("sdk_store_roundtrip", n, run.scale(2, 6), spec_strategy(), |sp| judge_sdk_store(&run, sp));
+            run.extra("part_a_wall_s", json!(t0.elapsed().as_secs_f64()));
             let built = run.hist_get("a:built");
             let rej = run.hist_get("a:generator_rejected");
             if rej * 20 > (built + rej).max(1) * 3 {
